@@ -3,6 +3,7 @@
   Theorems about `SpVerif.Model.Naming` (mirrors FieldWrapper.option_strings).
 -/
 import SpVerif.Model.Naming
+import SpVerif.Props.C04
 namespace SpVerif.C10
 open SpVerif
 
@@ -293,6 +294,151 @@ theorem c10_without_root (root rest : Str) (h : '.' ∉ root) :
   unfold dropRoot
   rw [splitOnChar_append _ _ _ h]
   exact joinWith_splitOnChar '.' rest
+
+
+/-! ### "no other spelling is accepted": the engine rejects every long spelling that is neither an
+    option string of the table nor an abbreviation of one (argparse's lookup, modelled in
+    `Model/Engine.classify`); `c10_exact` says which strings the table holds. -/
+
+theorem splitOnChar_head_cons (sep c : Char) (cs : Str) (h : c ≠ sep) :
+    ∃ p ps, splitOnChar sep (c :: cs) = (c :: p) :: ps := by
+  simp only [splitOnChar, h, ↓reduceIte]
+  cases hs : splitOnChar sep cs with
+  | nil => exact ⟨[], [], rfl⟩
+  | cons p ps => exact ⟨p, ps, rfl⟩
+
+/-- a token starting with `--` is never read as a negative number -/
+theorem looksNegNumber_dd (r : Str) : looksNegNumber ('-' :: '-' :: r) = false := by
+  obtain ⟨p, ps, hp⟩ := splitOnChar_head_cons '.' '-' r (by decide)
+  simp only [looksNegNumber, hp]
+  have h1 : allDigits ('-' :: r) = false := by
+    simp [allDigits, isDigit]
+  rw [h1]
+  cases ps with
+  | nil => simp
+  | cons b rest =>
+    cases rest with
+    | nil => simp [allDigits, isDigit]
+    | cons _ _ => simp
+
+theorem startsWith_self (s : Str) : startsWith s s = true := by
+  induction s with
+  | nil => rfl
+  | cons c cs ih => simp [startsWith, ih]
+
+theorem lookup_none_of_forall {β : Type} (l : List (Str × β)) (k : Str) (h : ∀ p ∈ l, p.1 ≠ k) :
+    l.lookup k = none := by
+  induction l with
+  | nil => rfl
+  | cons p ps ih =>
+    obtain ⟨a, b⟩ := p
+    have hne : a ≠ k := h (a, b) (by simp)
+    have : (k == a) = false := by simpa using fun hh => hne hh.symm
+    simp only [List.lookup, this]
+    exact ih (fun q hq => h q (by simp [hq]))
+
+/-- a spelling that is no option string, no abbreviation of one, carries no `=` and no blank is
+    lexed as an unknown option -/
+theorem classify_unknown_long (tbl : List Act) (r : Str)
+    (heq : splitEq ('-' :: '-' :: r) = none)
+    (hsp : (('-' :: '-' :: r).contains ' ') = false)
+    (hpre : ∀ p ∈ optTable tbl, startsWith p.1 ('-' :: '-' :: r) = false) :
+    classify tbl ('-' :: '-' :: r) = .ok (.O none ('-' :: '-' :: r) none) := by
+  have hl : (optTable tbl).lookup ('-' :: '-' :: r) = none := by
+    apply lookup_none_of_forall
+    intro p hp hh
+    have := hpre p hp
+    rw [hh, startsWith_self] at this
+    cases this
+  have hot : optionTuples (optTable tbl) ('-' :: '-' :: r) = [] := by
+    simp only [optionTuples, heq]
+    rw [List.map_eq_nil_iff, List.filter_eq_nil_iff]
+    intro p hp
+    simp [hpre p hp]
+  unfold classify
+  simp only [hl, heq, hot, looksNegNumber_dd, hsp]
+  simp
+
+theorem lexAll_mem (tbl : List Act) (pre post : List Str) (a : Str) (t : Tok)
+    (hdd : ∀ x ∈ pre, x ≠ ['-', '-']) (ha : a ≠ ['-', '-']) (hc : classify tbl a = .ok t) :
+    ∀ toks, lexAll tbl (pre ++ a :: post) = .ok toks → (a, t) ∈ (pre ++ a :: post).zip toks := by
+  induction pre with
+  | nil =>
+    intro toks hlex
+    simp only [List.nil_append, lexAll, ha, ↓reduceIte, hc] at hlex
+    cases hr : lexAll tbl post with
+    | error e => simp [hr] at hlex
+    | ok ts => simp only [hr, Except.ok.injEq] at hlex; subst hlex; simp
+  | cons x xs ih =>
+    intro toks hlex
+    have hx : x ≠ ['-', '-'] := hdd x (by simp)
+    simp only [List.cons_append, lexAll, hx, ↓reduceIte] at hlex
+    cases hcx : classify tbl x with
+    | error e => simp [hcx] at hlex
+    | ok tx =>
+      simp only [hcx] at hlex
+      cases hr : lexAll tbl (xs ++ a :: post) with
+      | error e => simp [hr] at hlex
+      | ok ts =>
+        simp only [hr, Except.ok.injEq] at hlex
+        subst hlex
+        have := ih (fun y hy => hdd y (by simp [hy])) ts hr
+        simp [this]
+
+theorem mem_optTable (tbl : List Act) (p : Str × Nat) (h : p ∈ optTable tbl) :
+    ∃ a ∈ tbl, p.1 ∈ a.opts := by
+  unfold optTable at h
+  rw [List.mem_flatMap] at h
+  obtain ⟨⟨a, i⟩, hai, hp⟩ := h
+  rw [List.mem_map] at hp
+  obtain ⟨o, ho, rfl⟩ := hp
+  exact ⟨a, (List.mem_zipIdx hai).2.2 ▸ List.getElem_mem _, ho⟩
+
+/-- **C10 (no other spelling is accepted).** Whatever the table (any number of fields, any modes):
+    a command line that carries, before any literal `--`, a long spelling `--r` (no `=`, no blank)
+    that is not a prefix of — in particular not equal to — any option string of any action is never
+    accepted by `parse_args`: not with any other tokens around it, not with any closure state.
+    Together with `c10_exact` (which strings the actions carry) this is the "and no other spelling"
+    half of the property, up to argparse's prefix abbreviations. -/
+theorem c10_no_other_spelling (fenv : FEnv) (tbl : List Act) (cs : List Nat)
+    (pre post : List Str) (r : Str) (hr : r ≠ [])
+    (hdd : ∀ x ∈ pre, x ≠ ['-', '-'])
+    (heq : splitEq ('-' :: '-' :: r) = none)
+    (hsp : (('-' :: '-' :: r).contains ' ') = false)
+    (hpre : ∀ a ∈ tbl, ∀ o ∈ a.opts, startsWith o ('-' :: '-' :: r) = false)
+    (ns : List (Str × Val)) (ex : List Str) (cs' : List Nat) :
+    runStrict fenv tbl cs (pre ++ ('-' :: '-' :: r) :: post) ≠ .ok ns ex cs' := by
+  have hc := classify_unknown_long tbl r heq hsp (by
+    intro p hp
+    obtain ⟨a, ha, ho⟩ := mem_optTable tbl p hp
+    exact hpre a ha p.1 ho)
+  have hne : ('-' :: '-' :: r) ≠ ['-', '-'] := by
+    intro h; apply hr; simpa using h
+  cases hlex : lexAll tbl (pre ++ ('-' :: '-' :: r) :: post) with
+  | error e =>
+    unfold runStrict run
+    rw [hlex]
+    simp
+  | ok toks =>
+    have hm := lexAll_mem tbl pre post _ _ hdd hne hc toks hlex
+    exact C04.c04_unknown_rejected fenv tbl cs _ toks hlex ⟨_, hm, _, _, rfl⟩ ns ex cs'
+
+/-- non-vacuity: `--a-b` is rejected by a parser that only knows `--a_b` (and help) … -/
+example : ∀ ns ex cs', runStrict []
+    [ helpAct,
+      { opts := ["--a_b".toList], dest := "c.a_b".toList, kind := .store, nargs := .one, conv := .base .int,
+        choices := none, required := false, default := some (.sc (.int 0)) } ] [0, 0]
+    (["--a-b".toList, "3".toList]) ≠ .ok ns ex cs' := by
+  intro ns ex cs'
+  exact c10_no_other_spelling [] _ [0, 0] [] ["3".toList] "a-b".toList (by decide) (by simp) (by decide)
+    (by decide) (by decide) ns ex cs'
+
+/-- … while `--a` is an abbreviation and is accepted (why the hypothesis speaks of prefixes) -/
+example : runStrict []
+    [ helpAct,
+      { opts := ["--a_b".toList], dest := "c.a_b".toList, kind := .store, nargs := .one, conv := .base .int,
+        choices := none, required := false, default := some (.sc (.int 0)) } ] [0, 0]
+    (["--a".toList, "3".toList]) = .ok [("c.a_b".toList, .sc (.int 3))] [] [0, 0] := by decide
 
 /-! ### non-vacuity / concrete instances -/
 
